@@ -1473,6 +1473,14 @@ impl<'a> Engine<'a> {
                         }
                     }
                 }
+                if pi % 3 == 2 {
+                    // a cursor that was seeked elsewhere (anywhere in the tree) seeks like a fresh one
+                    let other = &p[(pi * 7 + 3) % p.len()];
+                    let _ = c.seek(other);
+                    if pi % 2 == 0 {
+                        let _ = c.next();
+                    }
+                }
                 let found = c.seek(k);
                 let current = c.current().map(|d| data_item(&d));
                 let mut rest = Vec::new();
@@ -1505,6 +1513,75 @@ impl<'a> Engine<'a> {
                             after
                         ),
                     ));
+                }
+            }
+            // the cursor is an Iterator: whatever route advances it (nth, skip, step_by, count,
+            // last, fold) must agree with stepping entry by entry
+            {
+                let n = items.len();
+                let cap = n + 8;
+                let mut ks: Vec<usize> = vec![0, 1, 2, n / 2, n.saturating_sub(1), n, n + 1];
+                ks.extend((0..n).step_by((n / 6).max(1)));
+                ks.sort();
+                ks.dedup();
+                for k in ks {
+                    inputs += 1;
+                    let got = b.cursor().nth(k).map(|d| data_item(&d));
+                    if got.as_ref() != items.get(k) {
+                        return Err(("scan".into(), format!("cursor().nth({}) on a bucket of {} entries yields {} but stepping yields {}", k, n,
+                            got.as_ref().map(item_str).unwrap_or_else(|| "None".into()), items.get(k).map(item_str).unwrap_or_else(|| "None".into()))));
+                    }
+                    let got: Vec<Item> = b.cursor().skip(k).take(cap).map(|d| data_item(&d)).collect();
+                    if got.as_slice() != &items[k.min(n)..] {
+                        return Err(("scan".into(), format!("cursor().skip({}) on a bucket of {} entries yields {} entries instead of {}", k, n, got.len(), n - k.min(n))));
+                    }
+                    // nth on a cursor that has already yielded entries
+                    let mut c = b.cursor();
+                    let first = c.next().map(|d| data_item(&d));
+                    let got = c.nth(k).map(|d| data_item(&d));
+                    if first.as_ref() != items.first() || got.as_ref() != items.get(k + 1) {
+                        return Err(("scan".into(), format!("next() then nth({}) on a bucket of {} entries yields {}", k, n, got.as_ref().map(item_str).unwrap_or_else(|| "None".into()))));
+                    }
+                    if k >= 1 && k <= 4 {
+                        let got: Vec<Item> = b.cursor().step_by(k).take(cap).map(|d| data_item(&d)).collect();
+                        let exp: Vec<Item> = items.iter().step_by(k).cloned().collect();
+                        if got != exp {
+                            return Err(("scan".into(), format!("cursor().step_by({}) on a bucket of {} entries yields {} entries instead of {}", k, n, got.len(), exp.len())));
+                        }
+                    }
+                }
+                let kvs: Vec<Item> = items.iter().filter(|i| i.1.is_some()).cloned().collect();
+                let subs: Vec<Item> = items.iter().filter(|i| i.1.is_none()).cloned().collect();
+                for k in [0usize, 1, kvs.len() / 2, kvs.len()] {
+                    inputs += 1;
+                    let got = b.kv_pairs().nth(k).map(|kv| (kv.key().to_vec(), Some(kv.value().to_vec())));
+                    if got.as_ref() != kvs.get(k) {
+                        return Err(("filter".into(), format!("kv_pairs().nth({}) on a bucket of {} pairs is wrong", k, kvs.len())));
+                    }
+                }
+                for k in [0usize, 1, subs.len() / 2, subs.len()] {
+                    inputs += 1;
+                    let got = b.buckets().nth(k).map(|(nm, _)| (nm.name().to_vec(), None));
+                    if got.as_ref() != subs.get(k) {
+                        return Err(("filter".into(), format!("buckets().nth({}) on a bucket of {} nested buckets is wrong", k, subs.len())));
+                    }
+                }
+                if n <= 2000 {
+                    inputs += 1;
+                    let cnt = b.cursor().count();
+                    let last = b.cursor().last().map(|d| data_item(&d));
+                    let folded = b.cursor().fold(0usize, |a, _| a + 1);
+                    if cnt != n || folded != n || last.as_ref() != items.last() {
+                        return Err(("scan".into(), format!("cursor().count() = {}, fold = {}, last = {} on a bucket of {} entries", cnt, folded, last.as_ref().map(item_str).unwrap_or_else(|| "None".into()), n)));
+                    }
+                    // a range with both bounds present behaves the same through adaptors
+                    if n >= 3 {
+                        let (lo, hi) = (&items[1].0, &items[n - 1].0);
+                        let got: Vec<Item> = b.range((Bound::Included(lo.as_slice()), Bound::Excluded(hi.as_slice()))).skip(1).take(cap).map(|d| data_item(&d)).collect();
+                        if got.as_slice() != &items[2..n - 1] {
+                            return Err(("range".into(), format!("range(..).skip(1) on a bucket of {} entries yields {} entries instead of {}", n, got.len(), n - 3)));
+                        }
+                    }
                 }
             }
             // ranges: all pairs when small, otherwise a deterministic stride
